@@ -185,7 +185,7 @@ func stringCompare(field string, value string) (CompareFunc, error) {
 }
 
 func regexCompare(field string, value string) (CompareFunc, error) {
-	if value[0] != '/' || value[len(value)-1] != '/' {
+	if len(value) < 2 || value[0] != '/' || value[len(value)-1] != '/' {
 		return nil, fmt.Errorf("regex not enclosed in //")
 	}
 	value = fmt.Sprintf("^(?:%s)$", value[1:len(value)-1])
